@@ -91,7 +91,14 @@ class Scripted(BufferedFile):
             if self.eof_style == "raise":
                 raise EOFError()
             return None if self.eof_style == "none" else b""
-        if self.policy == "byte":
+        if isinstance(self.policy, list):  # explicit deliveries: one per call, cut to the request
+            n = self.policy[0]
+            if n <= size:
+                self.policy.pop(0)
+            else:
+                self.policy[0] = n - size
+                n = size
+        elif self.policy == "byte":
             n = 1
         elif self.policy == "small":
             n = self.rng.randint(1, 3)
@@ -146,7 +153,8 @@ class JitChannel:
             if self.rpos >= len(self.src):
                 c._handle_eof(None)
             else:
-                k = 1 if self.policy == "byte" else self.rng.randint(1, 3) if self.policy == "small" else \
+                k = self.policy.pop(0) if isinstance(self.policy, list) else \
+                    1 if self.policy == "byte" else self.rng.randint(1, 3) if self.policy == "small" else \
                     self.rng.randint(1, 40)
                 d = self.src[self.rpos:self.rpos + k]
                 self.rpos += len(d)
@@ -615,6 +623,161 @@ def channel_files(ctx, counters, nstub, npair):
     ctx.guard(cf_pair_stratum, ctx, counters, npair)
 
 
+# ------------------------------------------------------------------ universal-newline line structure
+# 'U' mode against a reference universal-newline splitter: the stream is cut into lines at CRLF | CR | LF,
+# each terminator reported as one LF.  The splitter state must survive deliveries: a lone CR that ends a
+# delivery is a complete line ending unless the NEXT delivery starts with LF; an LF met later at the start of
+# the buffered data (an empty line) belongs to the stream and must be returned.
+# Programs using only readline()/next()/for/readlines() are compared exactly, line by line.  When a size limit
+# cuts a CRLF in two the library reports the LF as a further empty line; the statement ("lines end at
+# newlines and respect size limits") does not settle that, so programs containing readline(k) are compared
+# with a reference in which a CRLF may show as one or two LFs - everything else, including every empty
+# line of the stream, is still exact.
+import re as _re
+
+_TOK = _re.compile(rb"([^\r\n]*)(\r\n|\r|\n|$)")
+
+
+def ref_universal_lines(data):
+    return [m.group(1) + (b"\n" if m.group(2) else b"") for m in _TOK.finditer(data) if m.group(0)]
+
+
+def relaxed_universal_pattern(data):
+    out = []
+    for m in _TOK.finditer(data):
+        if not m.group(0):
+            continue
+        out.append(_re.escape(m.group(1)))
+        if m.group(2) == b"\r\n":
+            out.append(rb"\n\n?")
+        elif m.group(2):
+            out.append(rb"\n")
+    return _re.compile(b"".join(out), _re.S)
+
+
+def gen_universal(rng):
+    toks = [b"\n", b"\r", b"\r\n", b"\n\n", b"\r\r", b"\r\n\r\n", b"\n\r", b"a", b"bc", b"one", b"x y"]
+    data = b"".join(rng.choice(toks) for _ in range(rng.randint(1, 14)))
+    # deliveries: boundaries preferably right after a CR
+    cuts = set()
+    for i, ch in enumerate(data[:-1]):
+        if ch == 13 and rng.random() < 0.6:
+            cuts.add(i + 1)
+        elif rng.random() < 0.15:
+            cuts.add(i + 1)
+    pos = [0] + sorted(cuts) + [len(data)]
+    deliveries = [data[a:b] for a, b in zip(pos, pos[1:]) if b > a]
+    return data, deliveries
+
+
+def universal_case(ctx, rng, counters, idx):
+    data, deliveries = gen_universal(rng)
+    binary = rng.random() < 0.7
+    real = rng.random() < 0.35
+    mode = "r" + ("b" if binary else "") + "U"
+    ops = []
+    for _ in range(rng.randint(0, 8)):
+        r = rng.random()
+        ops.append(("readline", None) if r < 0.4 else ("readline", rng.choice([1, 2, 3, 4, 7, 20])) if r < 0.65 else
+                   ("next",) if r < 0.8 else ("for", rng.randint(1, 3)) if r < 0.92 else ("readlines", None))
+    if rng.random() < 0.5:
+        ops = [o for o in ops if not (o[0] == "readline" and o[1] is not None)]
+    sized = any(o[0] == "readline" and o[1] is not None for o in ops)
+    # what the case exercises
+    lone = 0
+    empties_after = 0
+    off = 0
+    for i, d in enumerate(deliveries):
+        off += len(d)
+        if d.endswith(b"\r") and not (i + 1 < len(deliveries) and deliveries[i + 1].startswith(b"\n")):
+            lone += 1
+            rest_lines = ref_universal_lines(data[off:])
+            if b"\n" in rest_lines:
+                empties_after += 1
+    counters["deliveries_ending_in_lone_cr"] += lone
+    counters["empty_lines_after_a_lone_cr_delivery"] += empties_after
+    lens = [len(d) for d in deliveries]
+    if real:
+        f = RealCF(JitChannel(data, rng, list(lens)), mode, -1)
+    else:
+        f = Scripted(data, mode, -1, rng, list(lens), rng.choice(["empty", "none", "raise"]), "all")
+    desc = dict(kind="universal-newline", mode=mode, driver="ChannelFile" if real else "scripted",
+                deliveries=deliveries, ops=ops)
+    ctx.case(("U", mode, real, repr(deliveries), repr(ops)), sample=desc if idx < 1 else None)
+    got = []
+    try:
+        def take(res, size, what):
+            b = as_bytes(res, binary, what)
+            if size is not None and len(b) > size:
+                raise Violation("readline(size) returned more than size bytes", what, dict(got=b, size=size))
+            if b"\r" in b or b"\n" in b[:-1]:
+                raise Violation("universal-newline line contains a newline before its end", what, dict(got=b))
+            got.append(b)
+            counters["universal_lines_compared"] += 1
+            return b
+
+        for op in ops:
+            if op[0] == "readline":
+                take(f.readline(op[1]) if op[1] is not None else f.readline(), op[1], "readline(%r)" % (op[1],))
+            elif op[0] == "next":
+                try:
+                    take(next(f), None, "next()")
+                except StopIteration:
+                    pass
+            elif op[0] == "for":
+                c = 0
+                for res in f:
+                    take(res, None, "iteration")
+                    c += 1
+                    if c >= op[1]:
+                        break
+            else:
+                for res in f.readlines():
+                    take(res, None, "readlines()")
+        for _ in range(len(data) + 5):
+            if not take(f.readline(), None, "readline() [drain]"):
+                break
+        got = [g for g in got if g]
+        ref = ref_universal_lines(data)
+        if not sized:
+            counters["universal_exact_programs"] += 1
+            if got != ref:
+                i = next((j for j in range(min(len(got), len(ref))) if got[j] != ref[j]), min(len(got), len(ref)))
+                if len(got) < len(ref) and got == [x for x in ref if x != b"\n"][:len(got)] or \
+                        (i < len(ref) and ref[i] == b"\n"):
+                    sig = "universal-newline mode swallowed an empty line of the stream"
+                elif len(got) > len(ref):
+                    sig = "universal-newline mode returned a line the stream does not hold"
+                else:
+                    sig = "universal-newline lines differ from the reference splitter"
+                raise Violation(sig, "lines returned in 'U' mode differ from the CRLF|CR|LF split of the stream",
+                                dict(got=got, expected=ref, first_difference=i))
+        else:
+            counters["universal_size_limited_programs"] += 1
+            joined = b"".join(got)
+            if not relaxed_universal_pattern(data).fullmatch(joined):
+                exp = b"".join(ref)
+                sig = ("universal-newline mode swallowed a newline of the stream" if joined.count(b"\n") < exp.count(b"\n")
+                       and joined.replace(b"\n", b"") == exp.replace(b"\n", b"")
+                       else "universal-newline output differs from the translated stream")
+                raise Violation(sig, "data returned in 'U' mode (with size limits) is not the newline-translated stream",
+                                dict(got=got, expected_translation=exp))
+        counters["streams_fully_drained"] += 1
+        if real:
+            counters["universal_channelfile_cases"] += 1
+    except Violation as v:
+        ctx.violation(v.sig, v.what, dict(desc, detail=v.extra))
+    except Runaway:
+        ctx.violation("read operation does not terminate at end of stream", "runaway in 'U' mode", desc)
+    except (IOError, UnicodeDecodeError, TypeError, ValueError, IndexError) as e:
+        from vf.core import exc_signature
+
+        ctx.violation("unexpected exception from a BufferedFile operation: " + exc_signature(e),
+                      "a read in 'U' mode raised %r" % (e,), desc)
+    finally:
+        f._closed = True
+
+
 # ------------------------------------------------------------------ one case
 def one_case(ctx, rng, counters, idx):
     direction = rng.choice(["r", "r", "r", "w", "w", "rw"])
@@ -688,6 +851,8 @@ def run(ctx):
     import time
 
     channel_files(ctx, counters, ctx.pick(1350, 13500), ctx.pick(54, 162))
+    for j in range(ctx.pick(4000, 40000)):
+        universal_case(ctx, rng, counters, j)
     i = 0
     while i < n and time.time() < deadline:
         one_case(ctx, rng, counters, i)
@@ -702,6 +867,12 @@ def run(ctx):
             ctx.require("chanfile_stub_%s_%s" % (b, e), 300)
             ctx.require("chanfile_pair_%s_%s" % (b, e), 8)
     ctx.require("chanfile_wire_messages_parsed", 5000)
+    ctx.require("universal_lines_compared", 20000)
+    ctx.require("universal_exact_programs", 3000)
+    ctx.require("universal_size_limited_programs", 2000)
+    ctx.require("universal_channelfile_cases", 2000)
+    ctx.require("deliveries_ending_in_lone_cr", 5000)
+    ctx.require("empty_lines_after_a_lone_cr_delivery", 2000)
     ctx.require("lines_compared", 2000)
     ctx.require("read_results_compared", 2000)
     ctx.require("write_checks", 2000)
